@@ -576,7 +576,13 @@ def call_type(interp, name, args, kwargs):
         if isinstance(args[0], DictV):
             return DictV([list(p) for p in args[0].pairs])
         items = iter_items(interp, args[0])
-        return DictV([[i.items[0], i.items[1]] for i in items if isinstance(i, ListV) and len(i.items) == 2])
+        d = DictV([])
+        for i in items:
+            if isinstance(i, ListV) and len(i.items) == 2:
+                d.store(i.items[0], i.items[1])     # a repeated key keeps its first position and its last value
+            else:
+                interp.imprecise('dict() from items of unknown shape')
+        return d
     if name == 'type':
         return type_of(interp, args[0])
     if name == 'object':
@@ -865,19 +871,29 @@ def call_method(interp, base, attr, args, kwargs, text=''):
             r = base.lookup(args[0])
             if r is not None:
                 return r
-            if isinstance(args[0], (Sym, Atom, Top)) and args[0].tag in ('str', None) and any(isinstance(p[0], Const) for p in base.pairs):
-                # unknown key of a kind the table has: any entry or the default
-                alts = ['<default>'] + [repr(p[0]) for p in base.pairs]
-                c = interp.decide('%s hits' % text, alts)
+            # hash/equality lookup: a symbolic key may equal any stored key of a compatible kind
+            arg = args[0]
+            cands = []
+            for p in base.pairs:
+                kk = p[0]
+                if isinstance(arg, Const) and isinstance(kk, Const):
+                    continue
+                if isinstance(arg, (Err, Func, TypeV, ClassV, Builtin)) and isinstance(kk, (Err, Func, TypeV, ClassV, Builtin)):
+                    continue        # distinct named objects
+                ka, kb = kind_of(arg), kind_of(kk)
+                if ka is not None and kb is not None and ka != kb:
+                    continue
+                if arg.tag == 'err' and kk.tag == 'err' and error_dunder(interp, '__eq__') is None and \
+                        error_dunder(interp, '__hash__') is None:
+                    if isinstance(arg, Sym) and isinstance(kk, Err):
+                        cands.append(p)     # unknown which singleton
+                    continue
+                cands.append(p)
+            if cands:
+                alts = ['<default>'] + [repr(p[0]) for p in cands]
+                c = interp.decide('%s hits' % (text or 'dict.get'), alts, ('dict-hit', arg, [p[0] for p in cands]))
                 if c != '<default>':
-                    for p in base.pairs:
-                        if repr(p[0]) == c:
-                            return p[1]
-            if isinstance(args[0], Sym) and args[0].tag == 'err' and any(isinstance(p[0], Err) for p in base.pairs):
-                alts = ['<default>'] + [repr(p[0]) for p in base.pairs if isinstance(p[0], Err)]
-                c = interp.decide('%s hits' % text, alts)
-                if c != '<default>':
-                    for p in base.pairs:
+                    for p in cands:
                         if repr(p[0]) == c:
                             return p[1]
             return args[1] if len(args) > 1 else Const(None)
